@@ -148,8 +148,17 @@ func init() {
 		p.Rule = "cases = (BFS state, dst, src, bound n): src is truncated by a size-bounded merge of the third replica, then merged into dst; non-trivial = distinct cases with a real truncation"
 		p.Assume("sequential part only covers sources whose state was produced by truncation; interleavings are the scheduler part")
 		runSearches(p, c14Searches(p, tier))
+		c14Busy(p, tier)
 		p.Sample(4, c14Case{Config: "def3", Path: seqx.Shapes["heads3"], Dst: 1, Src: 0, Third: 2, N: 2})
 	}, Replay: func(p *run.Part, check string, raw []byte) {
+		if check == "busy-source" {
+			var bc busyCase
+			if err := jsonUnmarshal(raw, &bc); err != nil {
+				panic(err)
+			}
+			busyOne(p, bc)
+			return
+		}
 		var cc c14Case
 		if err := jsonUnmarshal(raw, &cc); err != nil {
 			panic(err)
